@@ -86,6 +86,52 @@ func TestC04_Regress_Decoders(t *testing.T) {
 		}
 		regressCase(ev, n+" compressed-size input without compression flag")
 	}
+	// fix 28: a sealed deal whose plaintext has lost its share, delivered to verifier 0 (every proper
+	// suffix of the genuine plaintext, through the verif hook Dealer.SealDealBytes)
+	{
+		ed := edwards25519.NewBlakeSHA256Ed25519()
+		st := xofStream([]byte("regress-c04-vss"))
+		suite := vssSuite{ed, xofStream([]byte("regress-c04-vss-rand"))}
+		x := ed.Scalar().Pick(st)
+		X := ed.Point().Mul(x, nil)
+		var vl []kyber.Scalar
+		var vp []kyber.Point
+		for i := 0; i < 3; i++ {
+			l := ed.Scalar().Pick(st)
+			vl, vp = append(vl, l), append(vp, ed.Point().Mul(l, nil))
+		}
+		if d, err := pvss.NewDealer(suite, x, ed.Scalar().Pick(st), vp, 2); err == nil {
+			pd, _ := d.PlaintextDeal(0)
+			raw, _ := pd.Marshal()
+			for n := 1; n < len(raw); n++ {
+				if pn := safely(func() {
+					if enc, err := d.SealDealBytes(0, raw[n:]); err == nil {
+						v, _ := pvss.NewVerifier(suite, vl[0], X, vp)
+						_, _ = v.ProcessEncryptedDeal(enc)
+					}
+				}); pn != "" {
+					violationOrKnown(t, ev, "C04/composite/pedersen.ProcessEncryptedDeal(plaintext,v0)", "pedersen verifier 0 panicked on a sealed deal that is the suffix [%d:] of the genuine plaintext: %s", n, pn)
+					break
+				}
+			}
+		}
+		if d, err := rvss.NewDealer(suite, x, ed.Scalar().Pick(st), vp, 2); err == nil {
+			pd, _ := d.PlaintextDeal(0)
+			raw, _ := pd.Marshal()
+			for n := 1; n < len(raw); n++ {
+				if pn := safely(func() {
+					if enc, err := d.SealDealBytes(0, raw[n:]); err == nil {
+						v, _ := rvss.NewVerifier(suite, vl[0], X, vp)
+						_, _ = v.ProcessEncryptedDeal(enc)
+					}
+				}); pn != "" {
+					violationOrKnown(t, ev, "C04/composite/rabin.ProcessEncryptedDeal(plaintext,v0)", "rabin verifier 0 panicked on a sealed deal that is the suffix [%d:] of the genuine plaintext: %s", n, pn)
+					break
+				}
+			}
+		}
+		regressCase(ev, "vss deals without share through the genuine transport")
+	}
 }
 
 func TestC05_Regress_ValueSemantics(t *testing.T) {
@@ -238,6 +284,68 @@ func TestC10_Regress_VSS(t *testing.T) {
 		}
 	}
 	regressCase(ev, "pedersen justification with another index' deal")
+	// fix 27: a self-consistent deal for other commitments under the main run's session id
+	for _, rabin := range []bool{false, true} {
+		secret := ed.Scalar().Pick(st)
+		approved, certified := c10RegressForeignDeal(suite, ed, dl, vl, vp, secret, rabin)
+		name := map[bool]string{false: "pedersen", true: "rabin"}[rabin]
+		// (Rabin's certification rule does not wait for a complaint to be justified - see the open C11
+		// finding - so only the approval is judged there)
+		if approved || (certified && !rabin) {
+			violationOrKnown(t, ev, "C10/"+name+"/bad-deal-approved", "%s: a deal consistent in itself but for other commitments, announcing the session id of the main run, was approved=%v and the victim reports certified=%v after the others' approvals", name, approved, certified)
+		}
+		regressCase(ev, name+" foreign deal under the main session id")
+	}
+}
+
+// c10RegressForeignDeal: verifier 0 gets the deal of ANOTHER dealer instance (same long-term key,
+// other secret => other commitments) relabelled with the main run's session id; verifiers 1 and 2
+// approve the main deal and verifier 0 receives their responses.
+func c10RegressForeignDeal(suite vssSuite, ed kyber.Group, dl kyber.Scalar, vl []kyber.Scalar, vp []kyber.Point, secret kyber.Scalar, rabin bool) (approved, certified bool) {
+	dpub := ed.Point().Mul(dl, nil)
+	other := ed.Scalar().Add(secret, ed.Scalar().One())
+	if rabin {
+		main, _ := rvss.NewDealer(suite, dl, secret, vp, 2)
+		foreign, _ := rvss.NewDealer(suite, dl, other, vp, 2)
+		fd, _ := foreign.PlaintextDeal(0)
+		fd.SessionID = main.SessionID()
+		enc, err := foreign.EncryptedDeal(0)
+		if err != nil {
+			return false, false
+		}
+		v0, _ := rvss.NewVerifier(suite, vl[0], dpub, vp)
+		resp, err := v0.ProcessEncryptedDeal(enc)
+		approved = err == nil && resp.Approved
+		for i := 1; i < 3; i++ {
+			vi, _ := rvss.NewVerifier(suite, vl[i], dpub, vp)
+			e, _ := main.EncryptedDeal(i)
+			if ri, err := vi.ProcessEncryptedDeal(e); err == nil {
+				_ = v0.ProcessResponse(ri)
+			}
+		}
+		v0.SetTimeout()
+		return approved, v0.DealCertified()
+	}
+	main, _ := pvss.NewDealer(suite, dl, secret, vp, 2)
+	foreign, _ := pvss.NewDealer(suite, dl, other, vp, 2)
+	fd, _ := foreign.PlaintextDeal(0)
+	fd.SessionID = main.SessionID()
+	enc, err := foreign.EncryptedDeal(0)
+	if err != nil {
+		return false, false
+	}
+	v0, _ := pvss.NewVerifier(suite, vl[0], dpub, vp)
+	resp, err := v0.ProcessEncryptedDeal(enc)
+	approved = err == nil && resp.StatusApproved
+	for i := 1; i < 3; i++ {
+		vi, _ := pvss.NewVerifier(suite, vl[i], dpub, vp)
+		e, _ := main.EncryptedDeal(i)
+		if ri, err := vi.ProcessEncryptedDeal(e); err == nil {
+			_ = v0.ProcessResponse(ri)
+		}
+	}
+	v0.SetTimeout()
+	return approved, v0.DealCertified()
 }
 
 func TestC15_Regress_ForgedShuffle(t *testing.T) {
